@@ -4,16 +4,17 @@
 set -u
 D=$(readlink -f "$1"); T=$2; shift 2; OTHERS="$@"
 export GOFLAGS=-mod=mod GOPROXY=off GOSUMDB=off GOTOOLCHAIN=local
-NAME=$(grep -oE 'func (Test[A-Za-z0-9_]+)' "$D/demo_test.go" | grep -v TestMain | head -1 | awk '{print $2}')
+NAME=$(grep -oE 'func (Test[A-Za-z0-9_]+)' "$D/demo_test.go" | grep -v "TestMain\|Child" | head -1 | awk '{print $2}')
 RACE=""; grep -qi -- "-race" "$D/RUN.txt" 2>/dev/null && RACE="-race"
 WT=""
 setup() { # $1 = patch or ""
   WT=$(mktemp -d /tmp/twinwt.XXXXXX); git -C /repo worktree add -q --detach "$WT" HEAD || exit 2
   if [ -n "$1" ]; then git -C "$WT" apply "$1" || echo "PATCH-DOES-NOT-APPLY"; fi
   (cd "$WT" && go build ./... && go vet -tags verif ./... && go test -count=1 ./... >/dev/null 2>&1 && go test -tags verif -count=1 ./... >/dev/null 2>&1) && B=ok || B=FAILED
-  cp "$D/demo_test.go" "$WT/zz_demo_test.go"
-  (cd "$WT" && timeout 900 go test $RACE -tags verif -run "^${NAME}\$" -count=1 . >/tmp/twin.demo.out 2>&1) && R=PASS || R=FAIL
-  rm -f "$WT/zz_demo_test.go"
+  DD=.; grep -q "^package main" "$D/demo_test.go" && DD=update-wordlist   # a demonstration of the tool lives next to it
+  cp "$D/demo_test.go" "$WT/$DD/zz_demo_test.go"
+  (cd "$WT" && timeout 900 go test $RACE -tags verif -run "^${NAME}\$" -count=1 ./$DD/ >/tmp/twin.demo.out 2>&1) && R=PASS || R=FAIL
+  rm -f "$WT/$DD/zz_demo_test.go"
 }
 chk() {
   for ID in "$@"; do
